@@ -111,6 +111,76 @@ func HarnessC16SQLMapping() {
 
 // HarnessC16SQLLarge: batches around the lookup page of 100 at the default page
 // size, with repeated values.
+// names that parse as UUIDs (two spellings of one UUID) and a plain one
+var c16UUIDNames = []string{"6741ddf6-3b3f-4f4c-9d1a-2f6f3e0a1b2c", "6741DDF6-3B3F-4F4C-9D1A-2F6F3E0A1B2C", "a"}
+
+// HarnessC16SQLTwoNetworks: two networks share the mapping table (it has no
+// network column; its ids are UUIDv5(network, name)). Network A writes a name,
+// network B writes a name (possibly another spelling of the same UUID-looking
+// text) and reads its own ids back: B gets what B wrote, A what A wrote.
+func HarnessC16SQLTwoNetworks() {
+	c16Reset()
+	pa, pb := newModelPersister(1), newModelPersister(0)
+	ctx := context.Background()
+	va := c16UUIDNames[verifChoice(len(c16UUIDNames))]
+	vb := c16UUIDNames[verifChoice(len(c16UUIDNames))]
+	ia, err := pa.MapStringsToUUIDs(ctx, va)
+	if err != nil || len(ia) != 1 {
+		verifFail("C16: MapStringsToUUIDs fails")
+		return
+	}
+	ib, err := pb.MapStringsToUUIDs(ctx, vb)
+	if err != nil || len(ib) != 1 {
+		verifFail("C16: MapStringsToUUIDs fails")
+		return
+	}
+	oa, err1 := pa.MapUUIDsToStrings(ctx, ia...)
+	ob, err2 := pb.MapUUIDsToStrings(ctx, ib...)
+	verifReach("c16.sql.two-networks")
+	if err1 != nil || err2 != nil || len(oa) != 1 || len(ob) != 1 {
+		verifFail("C16: MapUUIDsToStrings fails")
+		return
+	}
+	verifAssert(oa[0] == va, "C16: a network reads back a name another network wrote (or a different spelling)")
+	verifAssert(ob[0] == vb, "C16: a network reads back a name another network wrote (or a different spelling)")
+}
+
+// HarnessC16SQLRollback: a write maps its names inside a transaction that is
+// then rolled back (a later statement fails, the request is cancelled, the
+// transaction is retried); the same process writes the same names again and
+// reads them back.
+func HarnessC16SQLRollback() {
+	c16Reset()
+	pool := c16Pool[:4]
+	p := newModelPersister(0)
+	ctx := context.Background()
+	vals := []string{pool[verifChoice(len(pool))], pool[verifChoice(len(pool))]}
+	err := p.Transaction(ctx, func(ctx context.Context) error {
+		if _, e := p.MapStringsToUUIDs(ctx, vals...); e != nil {
+			return e
+		}
+		return errDB // the rest of the request fails
+	})
+	verifAssert(err != nil, "C16: a failing transaction reports success")
+	for i := range db.maps {
+		verifAssert(!verifConcretizeBool(db.maps[i].present), "C16: a rolled-back write leaves name mappings behind")
+	}
+	ids, err := p.MapStringsToUUIDs(ctx, vals...)
+	if err != nil || len(ids) != len(vals) {
+		verifFail("C16: MapStringsToUUIDs fails after a rolled-back attempt")
+		return
+	}
+	out, err := p.MapUUIDsToStrings(ctx, ids...)
+	verifReach("c16.sql.rollback")
+	if err != nil || len(out) != len(vals) {
+		verifFail("C16: MapUUIDsToStrings fails after a rolled-back attempt")
+		return
+	}
+	for i := range vals {
+		verifAssert(out[i] == vals[i], "C16: names written after a rolled-back attempt are not read back (their mappings were never stored)")
+	}
+}
+
 func HarnessC16SQLLarge() {
 	c16Reset()
 	p := newModelPersister(0)
